@@ -108,6 +108,11 @@ func checkFromString(r *engine.Run, s, source string, n uint64, err error, panic
 		return "other:accepted:" + c30Class(s)
 	}
 	if wellFormed {
+		// a refusal of another spelling is not judged, except where its stated reason is false of the amount: "too large"
+		// for an amount that is an exact droplet count within the signed 64-bit range
+		if want, ok := num.Representable(); ok && err == droplet.ErrTooLarge {
+			r.Failf("FromString:calls-representable-amount-too-large:"+c30Class(s), cs, "FromString(%q) fails with %q but the amount is exactly %d droplets (<= 2^63-1)", s, err, want)
+		}
 		return "other:rejected-wellformed:" + kind
 	}
 	return "other:rejected-malformed"
@@ -157,7 +162,7 @@ func c30Structured() []string {
 		add(two(63), 9), new(big.Int).Mul(two(63), big.NewInt(10)), add(new(big.Int).Mul(two(63), big.NewInt(10)), -10)} {
 		bases = append(bases, b)
 	}
-	exps := []string{"", "e0", "e6", "e-6", "e-7", "e12", "e13", "e400", "E2", "e+2", "e-0", "e-400", "e19", "e-19"}
+	exps := []string{"", "e0", "e1", "e6", "e-6", "e-7", "e11", "e12", "E+12", "e13", "e14", "e18", "e400", "E2", "e+2", "e-0", "e-400", "e19", "e20", "e-19"}
 	set := map[string]bool{}
 	for _, b := range bases {
 		ds := b.String()
